@@ -1,8 +1,253 @@
 import JrsVerif.Common.J
+import JrsVerif.Model.StdArr
 
 namespace JrsVerif.Drv.C10
-open Lean JrsVerif.J
+open Lean JrsVerif.J JrsVerif.StdArr
 
-def handle (_op : String) (_j : Json) : Option Json := none
+partial def toV (j : Json) : Option V :=
+  match j with
+  | .null => some .null
+  | .bool b => some (.bool b)
+  | .num _ => (j.getInt?.toOption).map V.num
+  | .str s => some (.str s)
+  | .arr a => (a.toList.mapM toV).map V.arr
+  | .obj _ =>
+    match j.getObjVal? "a" with
+    | .ok v => (toV v).map V.objA
+    | _ => some .objE
+
+partial def ofV : V → Json
+  | .null => .null
+  | .bool b => .bool b
+  | .num n => toJson n
+  | .str s => .str s
+  | .arr xs => .arr (xs.map ofV).toArray
+  | .objE => Json.mkObj []
+  | .objA v => Json.mkObj [("a", ofV v)]
+
+/-- result of a call: `none` = the call fails -/
+abbrev R := Option Json
+
+def okV (v : V) : Json := obj [("ok", ofV v)]
+def enc (r : Option V) : Json := match r with | some v => okV v | none => obj [("err", toJson (1 : Nat))]
+def encL (r : Option (List V)) : Json := enc (r.map V.arr)
+def encB (r : Option Bool) : Json := enc (r.map V.bool)
+
+def hex16 (n : UInt64) : String :=
+  let s := (Nat.toDigits 16 n.toNat)
+  String.ofList (List.replicate (16 - s.length) '0' ++ s)
+
+/-- average as the implementation computes it: exact integer when it is one, else the IEEE bits of
+    the (correctly rounded) quotient of two exactly representable integers -/
+def avgJson (s : Int) (n : Nat) : Json :=
+  if n ≠ 0 ∧ s % (n : Int) = 0 then okV (.num (s / (n : Int)))
+  else obj [("ok", obj [("$f", .str (hex16 (Float.ofInt s / Float.ofNat n).toBits))])]
+
+def asArr : V → Option (List V) | .arr xs => some xs | _ => none
+def asInt : V → Option Int | .num n => some n | _ => none
+
+/-- indexable argument: array, or string as its characters -/
+def asIdx : V → Option (List V × Bool)
+  | .arr xs => some (xs, false)
+  | .str s => some (chars s, true)
+  | _ => none
+
+def strOf (cs : List V) : Option String :=
+  cs.foldlM (fun acc c => match c with | .str s => some (acc ++ s) | _ => none) ""
+
+/-- keys are "flat": numbers, strings, arrays of numbers, or never-comparable values — on such
+    keys comparability is an equivalence, so "some pair is incomparable" is detected by every
+    comparison sort and the reference error behaviour is algorithm independent -/
+def flatKey : V → Bool
+  | .arr xs => xs.all (fun x => match x with | .num _ => true | _ => false)
+  | _ => true
+
+def keysFlat (xs : List V) (f : Option String) : Bool :=
+  xs.all (fun x => match keyFn f x with | some k => flatKey k | none => true)
+
+def both (m s : Json) : Json := obj [("model", m), ("spec", s)]
+def specOnly (s : Json) : Json := obj [("spec", s)]
+def modelOnly (m : Json) : Json := obj [("model", m)]
+def errJ : Json := obj [("err", toJson (1 : Nat))]
+
+def optInt? (v : V) : Option (Option Int) :=
+  match v with | .null => some none | .num n => some (some n) | _ => none
+
+def call (fn : String) (a : List V) (f g : Option String) : Option Json :=
+  match fn, a with
+  | "sort", [v] =>
+    match asArr v with
+    | none => some (both errJ errJ)
+    | some xs =>
+      let m := encL (Model.sort xs f)
+      some (if keysFlat xs f then both m (encL (Spec.sort xs f)) else modelOnly m)
+  | "uniq", [v] =>
+    match asArr v with
+    | none => some (both errJ errJ)
+    | some xs => some (both (encL (Model.uniq xs f)) (encL (Spec.uniq xs f)))
+  | "set", [v] =>
+    match asArr v with
+    | none => some (both errJ errJ)
+    | some xs =>
+      let m := encL (Model.set xs f)
+      some (if keysFlat xs f then both m (encL (Spec.set xs f)) else modelOnly m)
+  | "setMember", [x, v] =>
+    match asArr v with
+    | none => some (both errJ errJ)
+    | some xs =>
+      let m := encB (Model.setMember x xs f)
+      some (if Spec.isSet xs f && (Spec.setMember x xs f).isSome
+            then both m (encB (Spec.setMember x xs f)) else modelOnly m)
+  | "setUnion", [va, vb] | "setInter", [va, vb] | "setDiff", [va, vb] =>
+    match asArr va, asArr vb with
+    | some xa, some xb =>
+      let (m, s) := match fn with
+        | "setUnion" => (Model.setUnion xa xb f, Spec.setUnion xa xb f)
+        | "setInter" => (Model.setInter xa xb f, Spec.setInter xa xb f)
+        | _ => (Model.setDiff xa xb f, Spec.setDiff xa xb f)
+      some (if Spec.isSet xa f && Spec.isSet xb f && s.isSome then both (encL m) (encL s)
+            else modelOnly (encL m))
+    | _, _ => some (both errJ errJ)
+  | "member", [c, x] | "contains", [c, x] =>
+    match c with
+    | .arr xs => some (specOnly (encB (some (Spec.member xs x))))
+    | .str s =>
+      match x with
+      | .str p => some (specOnly (encB (some (!p.isEmpty && Spec.isInfix p.toList s.toList))))
+      | _ => some (specOnly errJ)
+    | _ => some (specOnly errJ)
+  | "find", [x, v] =>
+    some (specOnly (encL ((asArr v).map (fun xs => (Spec.find x xs).map (fun (i : Nat) => V.num i)))))
+  | "count", [v, x] =>
+    some (specOnly (enc ((asArr v).map (fun xs => V.num (Spec.count xs x)))))
+  | "removeAt", [v, i] =>
+    match asArr v, asInt i with
+    | some xs, some n => some (both (encL (some (removeAtM xs n))) (encL (some (removeAtSpec xs n))))
+    | _, _ => some (both errJ errJ)
+  | "remove", [v, e] =>
+    match asArr v with
+    | some xs => some (both (encL (some (removeM (fun y => eqV y e) xs)))
+                            (encL (some (removeSpec (fun y => eqV y e) xs))))
+    | none => some (both errJ errJ)
+  | "flattenArrays", [v] =>
+    match (asArr v).bind (fun xs => xs.mapM asArr) with
+    | some xss => some (both (encL (some (flattenM xss))) (encL (some (flattenSpec xss))))
+    | none => some (both errJ errJ)
+  | "flattenDeepArray", [v] => some (specOnly (encL (some (Spec.flattenDeep v))))
+  | "foldl", [c, init] =>
+    match asIdx c, f with
+    | some (xs, _), some fname => some (specOnly (enc (Spec.foldl (fn2 fname) init xs)))
+    | _, _ => some (specOnly errJ)
+  | "foldr", [c, init] =>
+    match asIdx c, f with
+    | some (xs, _), some fname => some (specOnly (enc (Spec.foldr (fn2 fname) init xs)))
+    | _, _ => some (specOnly errJ)
+  | "map", [c] =>
+    match asIdx c, f with
+    | some (xs, _), some fname => some (specOnly (encL (Spec.mapM' (fn1 fname) xs)))
+    | _, _ => some (specOnly errJ)
+  | "mapWithIndex", [c] =>
+    match asIdx c, f with
+    | some (xs, _), some fname => some (specOnly (encL (Spec.mapIdx (fn2 fname) 0 xs)))
+    | _, _ => some (specOnly errJ)
+  | "filter", [v] =>
+    match asArr v, f with
+    | some xs, some fname => some (specOnly (encL (Spec.filter (fn1 fname) xs)))
+    | _, _ => some (specOnly errJ)
+  | "filterMap", [v] =>
+    match asArr v, f, g with
+    | some xs, some ff, some gg =>
+      some (specOnly (encL ((Spec.filter (fn1 ff) xs).bind (Spec.mapM' (fn1 gg)))))
+    | _, _, _ => some (specOnly errJ)
+  | "flatMap", [c] =>
+    match c, f with
+    | .arr xs, some fname => some (specOnly (encL (Spec.flatMapArr (fn1 fname) xs)))
+    | .str s, some fname => some (specOnly (enc ((Spec.flatMapStr (fn1 fname) (chars s)).map V.str)))
+    | _, _ => some (specOnly errJ)
+  | "join", [sep, v] =>
+    match sep, asArr v with
+    | .str s, some xs =>
+      match Spec.strItems xs with
+      | some items => some (both (enc (some (.str (String.ofList (joinM s.toList items)))))
+                                 (enc (some (.str (String.ofList (joinSpec s.toList items))))))
+      | none => some (both errJ errJ)
+    | .arr s, some xs =>
+      match Spec.arrItems xs with
+      | some items => some (both (encL (some (joinM s items))) (encL (some (joinSpec s items))))
+      | none => some (both errJ errJ)
+    | _, _ => some (both errJ errJ)
+  | "lines", [v] =>
+    match (asArr v).bind Spec.strItems with
+    | some items =>
+      -- native: join("\n", arr ++ [""]) ; documented: a newline after each (non-null) string
+      let m := String.ofList (joinM ['\n'] (items ++ [some []]))
+      let s := String.ofList ((items.filterMap id).foldr (fun p acc => p ++ '\n' :: acc) [])
+      some (both (enc (some (.str m))) (enc (some (.str s))))
+    | none => some (both errJ errJ)
+  | "deepJoin", [v] => some (specOnly (enc ((Spec.deepJoin v).map V.str)))
+  | "any", [v] => some (specOnly (encB ((asArr v).bind Spec.anyV)))
+  | "all", [v] => some (specOnly (encB ((asArr v).bind Spec.allV)))
+  | "sum", [v] =>
+    some (specOnly (enc (((asArr v).bind Spec.nums).map (fun ns => V.num (ns.foldl (· + ·) 0)))))
+  | "avg", [v] =>
+    match (asArr v).bind Spec.nums with
+    | some [] => some (specOnly errJ)
+    | some ns => some (specOnly (avgJson (ns.foldl (· + ·) 0) ns.length))
+    | none => some (specOnly errJ)
+  | "avg", [v, onEmpty] =>
+    match (asArr v).bind Spec.nums with
+    | some [] => some (specOnly (okV onEmpty))
+    | some ns => some (specOnly (avgJson (ns.foldl (· + ·) 0) ns.length))
+    | none => some (specOnly errJ)
+  | "minArray", v :: rest | "maxArray", v :: rest =>
+    let want : Ordering := if fn == "minArray" then .lt else .gt
+    match asArr v, rest with
+    | some [], [onEmpty] => some (both (okV onEmpty) (okV onEmpty))
+    | some xs, _ =>
+      let m := enc (Model.top1 xs f want)
+      some (if keysFlat xs f then both m (enc (Spec.top1 xs f want)) else modelOnly m)
+    | none, _ => some (both errJ errJ)
+  | "range", [x, y] =>
+    match asInt x, asInt y with
+    | some p, some q => some (specOnly (encL (some (Spec.range p q))))
+    | _, _ => some (specOnly errJ)
+  | "repeat", [w, c] =>
+    match w, asInt c with
+    | .arr xs, some n =>
+      some (specOnly (if n < 0 then errJ else encL (some (Spec.repeatL xs n.toNat))))
+    | .str s, some n =>
+      some (specOnly (if n < 0 then errJ else enc (some (.str (String.ofList (Spec.repeatL s.toList n.toNat))))))
+    | _, _ => some (specOnly errJ)
+  | "slice", [c, i, e, st] =>
+    match asIdx c, optInt? i, optInt? e, optInt? st with
+    | some (xs, isStr), some i', some e', some st' =>
+      let stepOk := match st' with | none => true | some k => k ≥ 1
+      if !stepOk then some (specOnly errJ)
+      else
+        let r := sliceL xs i' e' ((st'.getD 1).toNat)
+        some (specOnly (if isStr then enc ((strOf r).map V.str) else encL (some r)))
+    | _, _, _, _ => some (specOnly errJ)
+  | "makeArray", [n] =>
+    match asInt n, f with
+    | some k, some fname =>
+      some (specOnly (if k < 0 then errJ
+        else encL (((List.range k.toNat).map (fun (i : Nat) => V.num i)).mapM (fn1 fname))))
+    | _, _ => some (specOnly errJ)
+  | _, _ => none
+
+def handle (op : String) (j : Json) : Option Json :=
+  match op with
+  | "std.call" =>
+    match (do
+      let fn ← str? j "fn"
+      let a ← arr? j "a"
+      let vs ← a.toList.mapM toV
+      pure (fn, vs)) with
+    | none => some (bad "std.call: parse")
+    | some (fn, vs) =>
+      match call fn vs (str? j "f") (str? j "g") with
+      | some r => some r
+      | none => some (bad s!"std.call: unknown fn/arity {fn}")
+  | _ => none
 
 end JrsVerif.Drv.C10
